@@ -36,6 +36,78 @@ const LENS: [usize; 28] = [
     1499, 1500,
 ];
 
+/// Lengths of the `sweep` space that every one of the 65 536 type codes is combined with
+/// (lengths 0..2 are covered by the complete enumeration of all strings of at most 2 bytes).
+fn sweep_lens() -> Vec<usize> {
+    let mut v: Vec<usize> = (3..=40).collect();
+    v.push(258);
+    v.push(1500);
+    v
+}
+
+/// Deterministic filler byte at offset `i >= 2` of a sweep datagram.
+/// Filler `a`: the body of a fixed, valid extended keepalive up to offset 38 (timestamp with
+/// distinct bytes, magic, version, six fields incl. negative i32s), then an arithmetic pattern.
+/// Filler `b`: big-endian words from offset 4 on that read as NAK range starts (top bit set), range
+/// ends a few numbers later, and single entries, in rotation - bytes 2..4 are zero.
+fn sweep_fill(tmpl: &[u8], fill: u8, i: usize) -> u8 {
+    match fill {
+        b'a' => {
+            if i < tmpl.len() {
+                tmpl[i]
+            } else {
+                ((i * 131) ^ (i >> 2) ^ 0x5a) as u8
+            }
+        }
+        _ => {
+            if i < 4 {
+                return 0;
+            }
+            let k = ((i - 4) / 4) as u32;
+            let w: u32 = match k % 4 {
+                0 => 0x8000_0000 | (k * 7),
+                1 => k * 7 + (k % 5),
+                2 => k * 1000 + 1,
+                _ => 0x7fff_fff0 + (k % 16),
+            };
+            w.to_be_bytes()[(i - 4) % 4]
+        }
+    }
+}
+
+fn sweep_template() -> Vec<u8> {
+    let info = ConnectionInfo {
+        conn_id: 0x8102_0304,
+        window: -2,
+        in_flight: 0x7fff_fffe,
+        rtt_ms: 0x0000_01f4,
+        nak_count: 0xffff_ffff,
+        bitrate_bytes_per_sec: 0x8000_0000,
+    };
+    create_keepalive_packet_ext(info, 0x0102_0304_8506_0708).to_vec()
+}
+
+fn sweep_packet(tmpl: &[u8], ty: u16, len: usize, fill: u8) -> Vec<u8> {
+    let t = ty.to_be_bytes();
+    (0..len).map(|i| if i < 2 { t[i] } else { sweep_fill(tmpl, fill, i) }).collect()
+}
+
+/// Type codes that some decoder looks at, with both neighbours, plus the whole 0x80xx page and the
+/// 0x90xx..0x92xx pages (used for the second filler and the wider length grid of the sweep).
+fn sweep_special_types() -> Vec<u16> {
+    let mut v: Vec<u16> = Vec::new();
+    for t in 0x8000u16..=0x80ff {
+        v.push(t);
+    }
+    for t in 0x9000u16..=0x92ff {
+        v.push(t);
+    }
+    for t in [0x0000u16, 0x0001, 0x0003, 0x7ffe, 0x7fff, 0x8100, 0x8fff, 0x9300, 0xc01f, 0xfffe, 0xffff] {
+        v.push(t);
+    }
+    v
+}
+
 impl Codec {
     fn gen_packet(rng: &mut Rng) -> Vec<u8> {
         match rng.below(10) {
@@ -154,7 +226,10 @@ impl Component for Codec {
          x boundary lengths, structured NAK with singles/ranges/huge/reversed/truncated, SRTLA ACK, SRT ACK \
          around 20 bytes, mutated extended keepalives, data packets, random bytes) and builder ops `ka`, \
          `kaext`, `mkack`, `reg1`, `reg2` on boundary and random arguments. Non-trivial: at least one decoder \
-         returned a non-empty / Some result or a builder op ran."
+         returned a non-empty / Some result or a builder op ran. Thorough tier adds the complete enumeration \
+         `sweep`: all byte strings of length <= 2, all 65 536 type codes x lengths {3..40, 258, 1500} with a \
+         deterministic filler, decoder-relevant type pages x lengths {3..64, 257..259, 1316, 1499, 1500} with a \
+         NAK-shaped filler (a slice of it is stored as corpus/codec/sweep_mini.ops for the quick tier)."
     }
 
     fn gen_case(&mut self, rng: &mut Rng, _tier: Tier, _idx: usize) -> Vec<String> {
@@ -206,6 +281,53 @@ impl Component for Codec {
             ops.push(op);
         }
         ops
+    }
+
+    /// `sweep`: (1) EVERY byte string of length 0, 1 and 2 (1 + 256 + 65 536 strings); (2) every one
+    /// of the 65 536 type codes x every length in {3..40, 258, 1500} with filler `a`; (3) the type
+    /// codes some decoder looks at (pages 0x80xx, 0x90xx-0x92xx and the neighbours of the
+    /// top-bit / zero / all-ones boundaries) x lengths {3..64, 257..259, 1316, 1499, 1500} with the
+    /// NAK-shaped filler `b`.  One `dec` op per string; a case holds one (length, high type byte) row.
+    /// `sweep-mini` is the part of it that is stored in corpus/codec (quick tier).
+    fn exhaustive(&mut self, which: &str) -> Option<Vec<Vec<String>>> {
+        let mini = match which {
+            "sweep" => false,
+            "sweep-mini" => true,
+            _ => return None,
+        };
+        let tmpl = sweep_template();
+        let mut cases: Vec<Vec<String>> = Vec::new();
+        // (1) all strings of at most 2 bytes
+        cases.push(vec!["dec -".to_string()]);
+        cases.push((0..=255u8).map(|a| format!("dec {}", to_hex(&[a]))).collect());
+        if !mini {
+            for a in 0..=255u8 {
+                cases.push((0..=255u8).map(|b| format!("dec {}", to_hex(&[a, b]))).collect());
+            }
+        }
+        // (2) all type codes x lengths, filler a
+        let special = sweep_special_types();
+        for len in sweep_lens() {
+            if mini {
+                cases.push(TYPES.iter().map(|t| format!("dec {}", to_hex(&sweep_packet(&tmpl, *t, len, b'a')))).collect());
+                continue;
+            }
+            for hi in 0..=255u16 {
+                cases.push(
+                    (0..=255u16)
+                        .map(|lo| format!("dec {}", to_hex(&sweep_packet(&tmpl, hi << 8 | lo, len, b'a'))))
+                        .collect(),
+                );
+            }
+        }
+        // (3) decoder-relevant type codes x wider length grid, filler b
+        let mut lens_b: Vec<usize> = (3..=64).collect();
+        lens_b.extend_from_slice(&[257, 258, 259, 1316, 1499, 1500]);
+        for len in lens_b {
+            let row: Vec<u16> = if mini { TYPES.to_vec() } else { special.clone() };
+            cases.push(row.iter().map(|t| format!("dec {}", to_hex(&sweep_packet(&tmpl, *t, len, b'b')))).collect());
+        }
+        Some(cases)
     }
 
     fn start_case(&mut self) {}
